@@ -35,6 +35,10 @@ var c06Data = []datum{
 	{src: `moves(a * 2)`, steps: []string{"a", "a"}},
 	{src: `moves(a a)`, steps: []string{"a", "a"}},
 	{src: `moves(ab)`, steps: []string{"ab"}},
+	{src: `braille"hi"`, isText: true, typ: "braille", content: "hi$"},
+	{src: `custom"hi$"`, isText: true, typ: "custom", content: "hi$"},
+	{src: `moves(a1 * 2)`, steps: []string{"a1", "a1"}},
+	{src: `moves(a12)`, steps: []string{"a12"}},
 	{src: `moves(a * 3)`, steps: []string{"a", "a", "a"}},
 	{src: `moves(a b * 2)`, steps: []string{"a", "b", "b"}},
 }
@@ -144,7 +148,7 @@ func runC06(tier string) int {
 	r.Assume("names are <owner>_Text_<n> / <owner>_Movement_<n>, n counting the owner's new contents in source order of first appearance; content of a moves() is its written, expanded step list",
 		"identical content = identical text after terminator and format() processing and identical string type")
 	return r.Finish(r.Get("evaluations"), r.Get("nontrivial"),
-		"every file with N inline arguments distributed over 3 owners (two scripts and an inline map script, <= 3 each) x every assignment of 13 datum kinds (plain / already-terminated / formatted / other text, ascii and custom types, 7 moves() spellings incl. lists that differ only in the length of their last run) x context rotations over 13 contexts (statement, if, while, switch case, AutoVar condition, selected poryswitch case, '_' case after an unselected one, do-while condition, AutoVar leaf in a parenthesised / negated group followed by an operator, elif condition, AutoVar switch operand, second of two inline data in one command) x {no user name, a user text, a user movement named like a generated label}; non-trivial = some content is shared between two arguments")
+		"every file with N inline arguments distributed over 3 owners (two scripts and an inline map script, <= 3 each) x every assignment of 17 datum kinds (plain / already-terminated / formatted / other text, ascii, braille and custom types incl. typed texts whose final literal equals a plain one, 9 moves() spellings incl. lists that differ only in the length of their last run or whose run-length spelling collides with another step name) x context rotations over 13 contexts (statement, if, while, switch case, AutoVar condition, selected poryswitch case, '_' case after an unselected one, do-while condition, AutoVar leaf in a parenthesised / negated group followed by an operator, elif condition, AutoVar switch operand, second of two inline data in one command) x {no user name, a user text, a user movement named like a generated label}; non-trivial = some content is shared between two arguments")
 }
 
 func c06Eval(r *harness.Run, data []datum, dist []int, rot, clash int) {
